@@ -13,7 +13,7 @@ import c01_decls as DECL
 
 AREA = "C01"
 MODEL_FILES = ["Model.v", "Model2.v", "Model3.v"]
-HARNESS_DEPS = ("c01_part1.inc", "c01_part2.inc", "c01_part3.inc")
+HARNESS_DEPS = ("c01_part1.inc", "c01_part2.inc", "c01_part3.inc", "c01_part4.inc")
 
 
 # ------------------------------------------------------------------ body-text tie
@@ -97,6 +97,58 @@ def rehash():
     return 0
 
 
+# ------------------------------------------------------------------ call-sequence census (tie between a body's text and its model definition)
+# For every modelled body the set of GMP primitives it calls and the number of its isZero(...) dispatch tests are read from the
+# CURRENT source text and compared with the Gallina definition that was written after it.  A body that starts calling another
+# primitive (mpz_set_si instead of building an Integer, mpz_cmp_ui instead of mpz_cmp_si ...) or gains / loses a zero dispatch is
+# reported even when no generated operand shows a wrong value.
+CENSUS_IGNORE = {"mpz_ptr", "mpz_srcptr", "mpz_const", "mpz_t", "mpz_init", "mpz_clear", "mpz_init_set_str", "mpz_set", "mpz_init_set"}
+CENSUS_MAP = {"mpz_init_set_si": "mpz_set_si", "mpz_init_set_ui": "mpz_set_ui", "mpz_init_set_d": "mpz_set_d", "mpz_tstbit": "mpz_tstbit0",
+              "mpz_sizeinbase2": "mpz_sizeinbase"}
+# bodies whose model deliberately differs in the primitives it names (reason)
+CENSUS_EXPECT = {
+    "ctor_vect": ({"mpz_mul_ui", "mpz_set_ui"}, {"mpz_set_ui"}),        # model: the loop body is ctor_vect_loop (calls mpz_mul_ui there)
+    "cast_vect": ({"mpz_getlimbn", "mpz_size"}, {"mpz_size"}),          # model: the loop body is limbs_from (calls mpz_getlimbn there)
+}
+
+
+def model_definitions():
+    """name -> text of the Gallina definition that follows the (*@ name | ... *) annotation"""
+    defs = {}
+    for f in MODEL_FILES:
+        p = os.path.join(vf.coq_dir(AREA), f)
+        if not os.path.exists(p):
+            continue
+        txt = open(p).read()
+        for m in re.finditer(r"\(\*@\s*(\S+)\s*\|[^\n]*\*\)\s*\n((?:Definition|Fixpoint)[^\n]*(?:\n(?!\(\*|Definition|Fixpoint|\n)[^\n]*)*)", txt):
+            defs[m.group(1)] = m.group(2)
+    return defs
+
+
+def census(ann):
+    defs = model_definitions()
+    bad, n = [], 0
+    for a in ann:
+        body = extract_body(a["file"], a["sig"])
+        d = defs.get(a["name"])
+        if body is None or d is None:
+            continue
+        n += 1
+        sp = {CENSUS_MAP.get(t, t) for t in re.findall(r"mpz_\w+", body)} - CENSUS_IGNORE
+        mp = {CENSUS_MAP.get(t, t) for t in re.findall(r"mpz_\w+", d)} - CENSUS_IGNORE
+        if a["name"] in CENSUS_EXPECT:
+            if (sp, mp) != CENSUS_EXPECT[a["name"]]:
+                bad.append("%s: source calls %s, model names %s (expected %s / %s)" % ((a["name"], sorted(sp), sorted(mp)) + tuple(sorted(x) for x in CENSUS_EXPECT[a["name"]])))
+            continue
+        if sp != mp:
+            bad.append("%s: the source body calls %s, the model definition written after it calls %s" % (a["name"], sorted(sp), sorted(mp)))
+        if not a["name"].startswith("isZero_"):
+            sz, mz = len(re.findall(r"\bisZero\(", body)), len(re.findall(r"\bisZero_\w+", d))
+            if sz != mz:
+                bad.append("%s: the source body has %d isZero(...) dispatch test(s), the model definition %d" % (a["name"], sz, mz))
+    return n, bad
+
+
 # ------------------------------------------------------------------ known findings (frag until merged)
 def install_known():
     base = vf.load_known()
@@ -113,6 +165,26 @@ def install_known():
     merged = base + extra
     vf.load_known = lambda: merged
     return len(extra)
+
+
+# ------------------------------------------------------------------ running the two executables
+def run_chunks(binary, lines, timeout):
+    """run the line protocol on contiguous chunks in parallel; -> (rc, output lines, stderr); rc = 124 when a chunk timed out"""
+    import concurrent.futures
+    k = max(1, min(8, vf.NCPU // 2, len(lines) // 2000 + 1))
+    size = (len(lines) + k - 1) // k if lines else 1
+    chunks = [lines[i:i + size] for i in range(0, len(lines), size)] or [[]]
+    with concurrent.futures.ThreadPoolExecutor(max_workers=len(chunks)) as ex:
+        res = list(ex.map(lambda c: vf.run_lines(binary, "\n".join(c) + "\n", timeout=timeout), chunks))
+    out, err, rc = [], "", 0
+    for c, (r, o, e) in zip(chunks, res):
+        if r == 124:
+            return 124, out, "[timeout]"
+        if r != 0 or len(o) != len(c):
+            return (r or 1), out + o, e
+        out += o
+        err += e
+    return rc, out, err
 
 
 # ------------------------------------------------------------------ main
@@ -147,8 +219,14 @@ def main(tier, replay=None):
                        "division / modulo overloads are C02's subject and not modelled here",
                        "%d finding(s) taken from frag/C01.findings.json (not yet merged into known_findings.json)" % nfrag]
     # 1. proofs
+    chk.cov["inconclusive"] = []
     res = vf.coq_check_props(AREA)
-    chk.proof_result(res, AREA)
+    if not res["ok"] and not res["forbidden"] and "[timeout after" in res["log"]:
+        # our own tooling ran out of time (machine load): recorded, not a violation of the property
+        chk.cov["inconclusive"].append("Coq build of coq/C01 timed out; the proofs were not re-checked in this run")
+        chk.cov["obligations"] += len(res["theorems"])
+    else:
+        chk.proof_result(res, AREA)
     # 2. body-text tie
     ann = annotations()
     changed, missing = [], []
@@ -161,6 +239,12 @@ def main(tier, replay=None):
     chk.cov["modelled_bodies"] = len(ann)
     chk.cov["changed_bodies"] = changed
     chk.cov["missing_bodies"] = missing
+    ncen, cbad = census(ann)
+    chk.cov["census_bodies_checked"] = ncen
+    chk.cov["census_mismatches"] = cbad
+    if cbad:
+        chk.broke("call-sequence census: %d modelled body/bodies no longer call the GMP primitives / zero dispatches their model follows: " % len(cbad)
+                  + "; ".join(cbad[:8]))
     if missing:
         chk.broke("modelled overload bodies no longer found in the source (signature changed or removed): " + ", ".join(missing[:20]))
     live_fixed = {}
@@ -200,6 +284,7 @@ def main(tier, replay=None):
     # 4. cases
     per = 60 if tier == "quick" else 3000
     cases = []
+    grid_n = {}
     if replay:
         rp = json.load(open(replay))
         for f in rp.get("failing_inputs", []):
@@ -210,6 +295,10 @@ def main(tier, replay=None):
     else:
         for v in sorted(T.VARIANTS):
             spec = T.VARIANTS[v]
+            g = T.grid_cases(v, spec)       # deterministic, independent of the seed
+            grid_n[v] = len(g)
+            for a in g:
+                cases.append((v, a))
             n = max(8, int(per * spec.get("weight", 1)))
             for a in T.gen_cases(rng, v, spec, n):
                 cases.append((v, a))
@@ -224,14 +313,21 @@ def main(tier, replay=None):
             model_in.append(mname + " " + " ".join(str(x) for x in spec["margs"](*a)))
         else:
             model_in.append(mname + " " + " ".join(fmt_model(k, x) for k, x in zip(ks, a)))
-    rc, iout, ierr = vf.run_lines(himpl, "\n".join(impl_in) + "\n", timeout=900)
+    rc, iout, ierr = run_chunks(himpl, impl_in, 1800)
+    if rc == 124:
+        chk.cov["inconclusive"].append("the implementation harness did not finish within its time limit (machine load); no comparison in this run")
+        return chk.finish()
     if rc != 0 or len(iout) != len(cases):
         chk.broke("implementation harness failed (rc=%s, %d/%d lines)" % (rc, len(iout), len(cases)), ierr + "\n" + (impl_in[len(iout)] if len(iout) < len(impl_in) else ""))
         return chk.finish()
     mout = None
     if drv:
-        rc, mout, merr = vf.run_lines(drv, "\n".join(model_in) + "\n", timeout=1500)
-        if rc != 0 or len(mout) != len(cases):
+        rc, mout, merr = run_chunks(drv, model_in, 2400)
+        if rc == 124:
+            chk.cov["inconclusive"].append("the extracted model driver did not finish within its time limit (machine load); "
+                                           "implementation compared with the specification oracle only in this run")
+            mout = None
+        elif rc != 0 or len(mout) != len(cases):
             chk.broke("model driver failed (rc=%s, %d/%d lines)" % (rc, len(mout), len(cases)), merr)
             mout = None
     # 5. three-way comparison
@@ -283,6 +379,18 @@ def main(tier, replay=None):
     chk.cov["variants"] = len(T.VARIANTS)
     chk.cov["variants_oracle_only"] = sorted(v for v in T.VARIANTS if T.VARIANTS[v].get("oracle_only"))
     chk.cov["distribution_by_variant"] = dist
+    chk.cov["grid_cases_by_variant"] = grid_n
+    chk.cov["grid_rule"] = ("deterministic for every seed: per call form the full product (pairwise covering above %d cases) of the special values of "
+                            "every operand position: big-integer positions 0, +-1, +-2^31, +-(2^32-1), +-2^63, +-(2^64-1), +-2^64 and +- every special "
+                            "value of the word position (the other operand); word positions 0, +-1 and the limits of their C type (2^31-1, 2^31, 2^32-1, "
+                            "2^63-1, 2^63, 2^64-1, INT32_MIN, INT64_MIN and neighbours); doubles 0, +-1, +-0.5, +-2^31, 2^32-1, 2^32, +-2^53, +-2^63, 2^64; "
+                            "shift amounts 0,1,31..33,63..65; so every isZero()/sign dispatch branch of every overload meets every word limit" % T.GRID_FULL)
+    fam = {}
+    for v, n in dist.items():
+        b = v.split("@")[0]
+        fam.setdefault(b, {})[v] = n
+    chk.cov["call_forms_by_body"] = fam
+    chk.cov["call_forms"] = len(dist)
     return chk.finish()
 
 
